@@ -568,6 +568,8 @@ def crash_base_class(world, r):
                     "source, or in an empty or unparsable module)")
         if site.startswith("base/"):
             return "crash: %s at %s" % (cls, site)     # shared front-end: the offset category is part of the shape
+        if site.startswith("refactor/change_signature.py"):
+            kind = "change_signature"         # InlineParameter delegates to ChangeSignature (ArgumentDefaultInliner)
         return "crash: %s at %s in %s" % (cls, site, KIND_GROUP.get(kind, kind))
     return "?"
 
